@@ -155,6 +155,20 @@ def design(kind, names):
         m.specials += inst
         ofs.append("BLACKBOX")
         ios = {i, o}
+    elif kind == "hier_ios":
+        # two instances of a sub-module whose IOs carry no override (convert() names them from their leaf name: data, data_1, q, q_1) next to
+        # an internal signal that looks like a generated name; one port name is symbolic
+        class Sub(Module):
+            def __init__(self):
+                self.data = Signal(4)
+                self.q = Signal(4)
+                data_1 = Signal(4)
+                self.comb += [data_1.eq(self.data), self.q.eq(data_1)]
+        m.submodules.pipe0 = p0 = Sub()
+        m.submodules.pipe1 = p1 = Sub()
+        x = Signal(4, name_override="x"); x.name_override = names[0]
+        m.comb += x.eq(p0.q ^ p1.q)
+        ios = {x, p0.data, p0.q, p1.data, p1.q}
     elif kind == "two_memories":
         a = Signal(3, name_override="x"); a.name_override = names[0]
         m0 = Memory(4, 8, name="m"); m0.name_override = names[1]
@@ -170,8 +184,8 @@ def design(kind, names):
     return m, ios, ofs
 
 
-NSYM = dict(mem_vs_signal=3, instance_vs_signal=3, two_memories=3)
-FIXED = dict(mem_vs_signal=["a", "q", "storage"], instance_vs_signal=["i", "o", "u0"], two_memories=["a", "m0", "m1"])
+NSYM = dict(mem_vs_signal=3, instance_vs_signal=3, two_memories=3, hier_ios=1)
+FIXED = dict(mem_vs_signal=["a", "q", "storage"], instance_vs_signal=["i", "o", "u0"], two_memories=["a", "m0", "m1"], hier_ios=["x"])
 
 
 def job_text(kind, nsym=3, small_table=True):
@@ -205,6 +219,13 @@ def job_text(kind, nsym=3, small_table=True):
             namer.SignalNamespace = real_ns
         text = out.main_source
         decl = declared_identifiers(text, ofs)
+        # the namespace handed back with the text (used for constraint files and by every later tool) must name each IO as the port the text declares
+        port_ids = [d for k_, d in decl if k_ == "port"]
+        ns_ports_ok = True
+        for sg in ios:
+            nm_ = out.ns.get_name(sg)
+            if not is_sym(nm_) and not any((not is_sym(p_)) and p_ == nm_ for p_ in port_ids):
+                ns_ports_ok = False
         ctx.event("emitted")
         if len(decl) < 3:
             # the scanner no longer recognises the layout of the emitted text: nothing can be decided (inconclusive), this is not a naming violation
@@ -218,12 +239,13 @@ def job_text(kind, nsym=3, small_table=True):
             terms = [lift_text(d) for _, d in decl]
             dis = [terms[i] != terms[j] for i in range(len(terms)) for j in range(i + 1, len(terms))]
             legal = [z3.And(z3.InRe(t, IDENT), *[t != z3.StringVal(k) for k in gold]) for t in terms]
-            return dict(declarations_found=True, declared_identifiers_pairwise_distinct=SymBool(z3.And(*dis)), declared_identifiers_legal_and_not_reserved=SymBool(z3.And(*legal)))
+            return dict(declarations_found=True, declared_identifiers_pairwise_distinct=SymBool(z3.And(*dis)), declared_identifiers_legal_and_not_reserved=SymBool(z3.And(*legal)),
+                        namespace_after_convert_names_ios_as_declared_ports=ns_ports_ok)
         ids = [d for _, d in decl]
-        return dict(declarations_found=True, declared_identifiers_pairwise_distinct=len(set(ids)) == len(ids),
+        return dict(declarations_found=True, namespace_after_convert_names_ios_as_declared_ports=ns_ports_ok, declared_identifiers_pairwise_distinct=len(set(ids)) == len(ids),
                     declared_identifiers_legal_and_not_reserved=all(re.fullmatch(r"[A-Za-z_][A-Za-z0-9_]*", d) and d not in gold for d in ids))
     ev = ["emitted"] + (["memory_declared"] if "mem" in kind else []) + (["instance_declared"] if "instance" in kind else [])
-    return run_pysym("emitted_text_%s_%dsym%s" % (kind, nsym, "_small_table" if small_table else ""), body, ["declarations_found", "declared_identifiers_pairwise_distinct", "declared_identifiers_legal_and_not_reserved"],
+    return run_pysym("emitted_text_%s_%dsym%s" % (kind, nsym, "_small_table" if small_table else ""), body, ["declarations_found", "declared_identifiers_pairwise_distinct", "declared_identifiers_legal_and_not_reserved", "namespace_after_convert_names_ios_as_declared_ports"],
                      required_events=ev, funcs=["litex.gen.fhdl.verilog.convert", "litex.gen.fhdl.namer.build_signal_namespace", "litex.gen.fhdl.namer.SignalNamespace.get_name",
                                                 "litex.gen.fhdl.verilog._generate_module/_generate_signals/_generate_specials", "litex.gen.fhdl.memory._memory_generate_verilog",
                                                 "litex.gen.fhdl.instance._instance_generate_verilog"],
@@ -232,6 +254,8 @@ def job_text(kind, nsym=3, small_table=True):
 
 def jobs(tier):
     js = []
+    js.append(Job("emitted_text_hier_ios_0sym", job_text, dict(kind="hier_ios", nsym=0, small_table=False), cost=5, timeout_s=600))
+    js.append(Job("emitted_text_hier_ios_1sym_small_table", job_text, dict(kind="hier_ios", nsym=1, small_table=True), cost=30, timeout_s=1500))
     for kind in ("mem_vs_signal", "instance_vs_signal", "two_memories"):
         js.append(Job("emitted_text_%s_2sym" % kind, job_text, dict(kind=kind, nsym=2, small_table=False), cost=60, timeout_s=3400))
         if kind != "mem_vs_signal" or tier == "thorough":      # 3 symbolic names among 15 declarations: > 20 min, thorough only
